@@ -55,9 +55,9 @@ type Deep struct {
 }
 
 type Leaf struct {
-	LfA int64   `json:"a"`
-	LfB float32 `json:"b,omitempty"`
-	LfC *Leaf   `json:"c,omitempty"`
+	LeafA int64   `json:"a"`
+	LeafB float32 `json:"b,omitempty"`
+	LeafC *Leaf   `json:"c,omitempty"`
 }
 
 type Holder struct {
@@ -68,6 +68,37 @@ type Holder struct {
 	HoMap   map[string]*Leaf
 	HoAny   any
 }
+
+// Count and Label are named non-struct types; EmbInt embeds one.
+type Count int
+type Label string
+type Flag bool
+type Ratio float64
+type Small uint8
+
+type EmbInt struct {
+	Count
+	EiName Label
+}
+
+type inner struct {
+	InnerX int
+	InnerY string `json:"in_y"`
+}
+
+// Outer embeds an unexported struct type whose exported fields are promoted.
+type Outer struct {
+	inner
+	OuterZ bool
+}
+
+// Accent has a field whose first letter is an upper case non-ASCII letter.
+type Accent struct {
+	Été   int
+	Plain string
+}
+
+var extraNamed = []reflect.Type{reflect.TypeOf(EmbInt{}), reflect.TypeOf(Outer{}), reflect.TypeOf(Accent{})}
 
 var embeddable = []reflect.Type{
 	reflect.TypeOf(EmbA{}), reflect.TypeOf(EmbB{}), reflect.TypeOf(EmbC{}), reflect.TypeOf(EmbD{}), reflect.TypeOf(EmbE{}), reflect.TypeOf(EmbF{}), reflect.TypeOf(Deep{}),
@@ -82,6 +113,8 @@ var scalarTypes = []reflect.Type{
 	reflect.TypeOf(int(0)), reflect.TypeOf(int8(0)), reflect.TypeOf(int16(0)), reflect.TypeOf(int32(0)), reflect.TypeOf(int64(0)),
 	reflect.TypeOf(uint(0)), reflect.TypeOf(uint8(0)), reflect.TypeOf(uint16(0)), reflect.TypeOf(uint32(0)), reflect.TypeOf(uint64(0)),
 	reflect.TypeOf(float32(0)), reflect.TypeOf(float64(0)), reflect.TypeOf(""), reflect.TypeOf(true),
+	// named scalar types
+	reflect.TypeOf(Count(0)), reflect.TypeOf(Label("")), reflect.TypeOf(Flag(false)), reflect.TypeOf(Ratio(0)),
 }
 
 var anyType = reflect.TypeOf((*any)(nil)).Elem()
@@ -106,7 +139,11 @@ func (g *typeGen) fieldType(depth int) reflect.Type {
 	case k < 4:
 		return scalarTypes[r.Intn(len(scalarTypes))]
 	case k == 4:
-		return reflect.PointerTo(g.fieldType(depth - 1))
+		t := g.fieldType(depth - 1)
+		if t.Kind() == reflect.Interface || t == bytesType {
+			return t // a pointer to an interface or to a []byte is not a shape real code uses
+		}
+		return reflect.PointerTo(t)
 	case k == 5:
 		return reflect.SliceOf(g.fieldType(depth - 1))
 	case k == 6:
@@ -150,7 +187,7 @@ func (g *typeGen) structType(depth int, embed bool) reflect.Type {
 			continue
 		}
 		f := reflect.StructField{Name: fieldNames[perm[i]], Type: g.fieldType(depth)}
-		switch r.Intn(8) {
+		switch r.Intn(9) {
 		case 0:
 			f.Tag = reflect.StructTag(fmt.Sprintf(`json:"t%d"`, i))
 		case 1:
@@ -161,6 +198,16 @@ func (g *typeGen) structType(depth int, embed bool) reflect.Type {
 			f.Tag = `json:"-"`
 		case 4:
 			f.Tag = reflect.StructTag(fmt.Sprintf(`xml:"x%d" json:"t%d"`, i, i))
+		case 5:
+			// the "string" option: numbers and booleans written as strings
+			switch f.Type.Kind() {
+			case reflect.Bool, reflect.Int, reflect.Int8, reflect.Int16, reflect.Int32, reflect.Int64, reflect.Uint, reflect.Uint8, reflect.Uint16, reflect.Uint32, reflect.Uint64, reflect.Float32, reflect.Float64:
+				if r.Intn(2) == 0 {
+					f.Tag = reflect.StructTag(fmt.Sprintf(`json:"t%d,string"`, i))
+				} else {
+					f.Tag = reflect.StructTag(fmt.Sprintf(`json:"t%d,omitempty,string"`, i))
+				}
+			}
 		}
 		fs = append(fs, f)
 	}
@@ -271,10 +318,10 @@ func (g *typeGen) fill(v reflect.Value, depth int, mode string) {
 		case 3:
 			v.Set(reflect.ValueOf([]any{int64(1), nil, "x"}))
 		case 4:
-			l := Leaf{LfA: int64(r.Intn(3))}
+			l := Leaf{LeafA: int64(r.Intn(3))}
 			v.Set(reflect.ValueOf(l))
 		case 5:
-			l := &Leaf{LfA: int64(r.Intn(3)), LfB: 1.5}
+			l := &Leaf{LeafA: int64(r.Intn(3)), LeafB: 1.5}
 			v.Set(reflect.ValueOf(l))
 		default:
 			v.Set(reflect.ValueOf(map[string]any{"m": true, "n": nil}))
